@@ -52,6 +52,15 @@ def harness_run(case, outp, strace_log=None, inject=None, timeout=120):
     return p.returncode, res, p.stderr.decode("utf-8", "replace")
 
 
+ALIASES = {}      # real path of a symlink target outside the cache directory -> path of the link inside it
+
+
+def _dealias(text):
+    for tgt, link in ALIASES.items():
+        text = text.replace(tgt, link)
+    return text
+
+
 def parse_strace(log, cache_dir):
     """-> list of ops on files inside cache_dir: dicts with op, name, and details."""
     ops = []
@@ -59,7 +68,7 @@ def parse_strace(log, cache_dir):
     cd = os.path.realpath(cache_dir)
     pending = {}
     with open(log) as f:
-        lines = f.readlines()
+        lines = [_dealias(x) for x in f.readlines()]
     joined = []
     for ln in lines:
         m = re.match(r"^(\d+)\s+(.*)$", ln.rstrip("\n"))
@@ -80,7 +89,8 @@ def parse_strace(log, cache_dir):
             continue
 
         def inside(p):
-            return p is not None and os.path.realpath(p).startswith(cd + os.sep)
+            # the directory decides (the last component may itself be a symbolic link)
+            return p is not None and os.path.realpath(os.path.dirname(p)) == cd
         if call in ("openat", "open", "creat"):
             pm = re.search(r'"([^"]*)"', args)
             path = retpath or (pm.group(1) if pm else None)
@@ -318,7 +328,7 @@ def scenario(rng, idx):
         cands = [d for d in cal.published if d.year == year and d < t1 - datetime.timedelta(days=3)]
         if cands:
             late = rng.choice(cands)
-    return {"year": year, "cal": cal, "t1": t1, "t2": t2, "t3": t3, "late": late, "debris": idx % 3 == 1, "cold": idx % 3 == 2}
+    return {"year": year, "cal": cal, "t1": t1, "t2": t2, "t3": t3, "late": late, "debris": idx % 4 == 1, "cold": idx % 4 == 2, "symlink": idx % 4 == 3}
 
 
 def run_scenario(V, sc, idx, wd, tier, rng):
@@ -346,6 +356,15 @@ def run_scenario(V, sc, idx, wd, tier, rng):
         for nm in ("rates-%d.csv.tmp" % year, ".rates-%d.csv.tmp" % year, "rates-%d.csv~" % year, "rates-%d.tmp" % year):
             with open(os.path.join(cache, nm), "w") as f:
                 f.write(junk + junk[:1234])
+    if sc.get("symlink"):
+        # the cache file is a symbolic link to a file kept elsewhere (a synced or backed-up folder)
+        live0 = os.path.join(cache, "rates-%d.csv" % year)
+        if os.path.exists(live0):
+            os.makedirs(os.path.join(sdir, "elsewhere"))
+            shutil.move(live0, os.path.join(sdir, "elsewhere", "rates-%d.csv" % year))
+            os.symlink(os.path.join(sdir, "elsewhere", "rates-%d.csv" % year), live0)
+            # strace -y reports descriptors by their resolved path: read writes through the link as writes to the link
+            ALIASES[os.path.realpath(os.path.join(sdir, "elsewhere", "rates-%d.csv" % year))] = os.path.join(os.path.realpath(cache), "rates-%d.csv" % year)
     old_files = {n: open(os.path.join(cache, n), "rb").read() for n in os.listdir(cache)}
     # run B under strace: a look-up newer than the cache forces a download and a rewrite
     target = sc["t2"] - datetime.timedelta(days=1)
@@ -483,9 +502,10 @@ def writes_before_cache(log, cache_dir):
     cd = os.path.realpath(cache_dir)
     with open(log) as f:
         for ln in f:
+            ln = _dealias(ln)
             if re.search(r"\bwrite\(", ln) and "resumed" not in ln:
                 m = re.search(r"write\((\d+)<([^>]*)>", ln)
-                if m and os.path.realpath(m.group(2)).startswith(cd + os.sep):
+                if m and os.path.realpath(os.path.dirname(m.group(2))) == cd:
                     return n
                 n += 1
     return n
@@ -498,14 +518,14 @@ def run(tier):
         raise common.Inconclusive("strace is not installed")
     V = Verdict(PROP, tier, level="fault_enumeration")
     V.rule = ("crash states derived from the strace log of a real cache rewrite (start states in rotation: old content from an earlier run; the same plus "
-              "debris of an earlier interrupted write; a cold cache directory whose first download is interrupted): process-kill states = every "
+              "debris of an earlier interrupted write; a cold cache directory whose first download is interrupted; a cache file that is a symbolic link): process-kill states = every "
               "syscall boundary and byte cuts inside every write; power-loss states = additionally any prefix of un-fsynced data, a not-yet-durable "
               "truncation, and a rename durable before its un-fsynced data. quick: all row boundaries +-3 bytes, the first and last 200 offsets and ~300 "
-              "evenly spaced offsets of 3 year contents; thorough: every byte offset of 9 year contents. Each state is queried by a fresh RateLoader "
+              "evenly spaced offsets of 4 year contents; thorough: every byte offset of 12 year contents. Each state is queried by a fresh RateLoader "
               "(dates around the cut, rows that differ from the complete file, first/last dates, random). non-trivial = distinct (scenario, crash state)")
     V.assumptions = ["ordered-prefix persistence inside one file (no block reordering)", "a crashed writer leaves no other process writing the same file",
                      "the syscall log of one run is representative of the write procedure (it is deterministic code)"]
-    n = {"quick": 3, "thorough": 9}[tier]
+    n = {"quick": 4, "thorough": 12}[tier]
     wd = common.workdir("c14")
     try:
         for i in range(n):
